@@ -1,12 +1,12 @@
-# Per-property check configuration: which harness parts decide the property.
-#   flavour: inst  = instrumented build (rewritten tree under the controlled scheduler verif/vs)
-#            plain = untouched packages + in-package harness files, real channels / time / sockets
-CHECKS = {
-    "C20": {
-        "level": "model_checking",
-        "parts": [{"name": "c20", "flavour": "inst"}],
-        "explanation": "stateless exploration of the real packet.receiver under a controlled scheduler; states = nodes of the execution tree (distinct schedule prefixes), every execution is an execution of the implementation",
-        "assumptions": ["channel/select/context semantics of the verif/vs runtime follow the Go specification (litmus conformance suite)",
-                        "read outcomes outside the 13-symbol alphabet are not explored; scripts longer than the bound are not explored"],
-    },
-}
+# Per-property check configuration, one JSON file per property in lib/checks.d/<id>.json:
+#   level        evidence level category (EVIDENCE.schema.json)
+#   technique, level_text, level_note   -> MANIFEST.json (lib/gen_manifest.py)
+#   parts        [{name, flavour: inst|plain, shards?, budget?: {quick, thorough}, tiers?}]
+#     flavour inst  = instrumented build (rewritten tree, controlled scheduler verif/vs available)
+#             plain = untouched packages + in-package harness files, real channels / time / sockets
+#   explanation, assumptions            -> evidence file
+import glob, json, os
+CHECKS = {}
+for f in sorted(glob.glob(os.path.join(os.path.dirname(os.path.abspath(__file__)), "checks.d", "*.json"))):
+    CHECKS[os.path.basename(f)[:-5]] = json.load(open(f))
+NOT_APPLICABLE = {}
